@@ -103,7 +103,7 @@ def run(wd):
         rid = "corrupt%d" % k
         names[rid] = name
         items.append({"id": rid, "stmts": STMTS, "u": 1, "bps": [prep_bp(cbp)]})
-    br = refine.run_batches(wd + "/binding", "Refine", refine.CFG_REFINE, items, {"Strict": False, "DomCap": 216, "Seed": 0, "Clauses": {"C01_value", "C01_type", "C01_settles", "C20_exposed"}}, batch_size=50)
+    br = refine.run_batches(wd + "/binding", "Refine", refine.CFG_REFINE, items, {"Strict": False, "DomCap": 216, "Seed": 0, "Clauses": ["C01_value", "C01_type", "C01_settles", "C20_exposed"]}, batch_size=50)
     if br.errors:
         raise Machinery("binding demonstration: TLC failed: %s" % br.errors[:2])
     failed = {f[0] for f in br.fails}
